@@ -42,8 +42,28 @@ func ruleCosignatureNotReleasedBeforeStored(w *World, r *Run, a *updAnalysis, ru
 					continue
 				}
 				hands := false
+				// the bytes themselves, directly or inside a value built around them — not a value computed by a call that merely
+				// received them (the error of the failed Set)
+				var carries func(x *Term, depth int) bool
+				carries = func(x *Term, depth int) bool {
+					if x == nil || depth > 6 {
+						return false
+					}
+					if x == signed {
+						return true
+					}
+					switch x.Kind {
+					case "varargs", "structval", "fieldval", "conv", "slice", "append", "makeiface", "iface":
+						for _, y := range x.Args {
+							if carries(y, depth+1) {
+								return true
+							}
+						}
+					}
+					return false
+				}
 				for _, x := range ev.Args {
-					if x != nil && mentions(x, signed) {
+					if carries(x, 0) {
 						hands = true
 					}
 				}
